@@ -366,7 +366,8 @@ func runMore(a *Analyzer, r *Results) {
 					continue
 				}
 				ok2 := mustReach(in, func(i2 ssa.Instruction) bool {
-					if callReaches(a, i2, "interfaces.Communication", "SendConsensusMessage") {
+					// the send must be unconditional once its helper is entered (no "already disposed" / "muted" switch in between)
+					if callMustReach(a, i2, "interfaces.Communication", "SendConsensusMessage", 0) {
 						return true
 					}
 					return alt != "" && callReaches(a, i2, "interfaces.Storage", alt)
@@ -378,8 +379,8 @@ func runMore(a *Analyzer, r *Results) {
 	}
 
 	// ---- NV13 / LK6: selection of the highest-proof vote (follower) and of the block to re-propose (leader)
-	checkSelection(a, r, "(*services/termincommittee.TermInCommittee).latestViewChangeVote", "NV13", props("C07", "C09", "C01"), false)
-	checkSelection(a, r, "services/blockextractor.GetLatestBlockFromViewChangeMessages", "LK6", props("C09", "C11", "C07"), true)
+	checkSelection(a, r, "(*services/termincommittee.TermInCommittee).latestViewChangeVote", "NV13", props("C07", "C09", "C01", "C05"), false)
+	checkSelection(a, r, "services/blockextractor.GetLatestBlockFromViewChangeMessages", "LK6", props("C09", "C11", "C07", "C05", "C01"), true)
 
 	// ---- LK4: ExtractPreparedMessages
 	{
